@@ -21,6 +21,8 @@ import (
 	"os"
 	"os/signal"
 	"strings"
+
+	"github.com/dappledger/AnnChain/gemmill/modules/verifhook"
 )
 
 var (
@@ -102,17 +104,26 @@ func WriteFileAtomic(filePath string, newBytes []byte, mode os.FileMode) error {
 		if err != nil {
 			return fmt.Errorf("Could not read file %v. %v", filePath, err)
 		}
+		if err = verifhook.BeforeWrite("atomic.bak"); err != nil {
+			return fmt.Errorf("Could not write file %v. %v", filePath+".bak", err)
+		}
 		err = ioutil.WriteFile(filePath+".bak", fileBytes, mode)
 		if err != nil {
 			return fmt.Errorf("Could not write file %v. %v", filePath+".bak", err)
 		}
 	}
 	// Write newBytes to filePath.new
+	if err := verifhook.BeforeWrite("atomic.new"); err != nil {
+		return fmt.Errorf("Could not write file %v. %v", filePath+".new", err)
+	}
 	err := ioutil.WriteFile(filePath+".new", newBytes, mode)
 	if err != nil {
 		return fmt.Errorf("Could not write file %v. %v", filePath+".new", err)
 	}
 	// Move filePath.new to filePath
+	if err := verifhook.BeforeWrite("atomic.rename"); err != nil {
+		return err
+	}
 	err = os.Rename(filePath+".new", filePath)
 	return err
 }
